@@ -61,7 +61,8 @@ PROPS['C11'] = {
     'engine': 'rv.argsweep', 'level': 'exploration',
     'rule': ('one case = a 2-3 node E1 cluster on a healthy network (memory or file journal, batched or unbatched appends) and a slice of '
              'commands: the dense cases enumerate every argument size in [k*B-64, k*B+64] for k = 1..4 and every batch size B in '
-             '{1, 7, 64, 1000, 4096, 65536} (16 sizes per case, all sizes in both tiers); the other cases draw random sizes up to 8*B and random '
+             '{1, 7, 64, 1000, 4096, 65536}, the window being laid three times - in bytes of the argument, of the command and of the pickled log '
+             'entry, whose library overhead is measured - (16 sizes per case, all sizes in both tiers); the other cases draw random sizes up to 8*B and random '
              'shapes (nested tuples/lists/dicts/bytes/str/None, positional and keyword). Every replica must execute each command exactly once '
              'with arguments equal to the submitted ones, the callback must report SUCCESS, no exception may escape any step, replicas must '
              'converge. distinct non-trivial = distinct (mode, batch size, append mode, journal, slice) in which commands were applied.'),
